@@ -20,15 +20,19 @@
 package main
 
 import (
+	"context"
 	"fmt"
 	"os"
+	"regexp"
 	"sort"
 	"strconv"
 	"strings"
 	"sync"
+	"time"
 
 	"github.com/google/mtail/internal/logline"
 	"github.com/google/mtail/internal/metrics"
+	"github.com/google/mtail/internal/metrics/datum"
 	"github.com/google/mtail/internal/runtime"
 	"github.com/google/mtail/internal/runtime/compiler"
 	"github.com/google/mtail/internal/runtime/compiler/ast"
@@ -441,6 +445,7 @@ type defect struct {
 	stmt  string // statement to insert (already in an expression context if needed)
 	ectx  string
 	extra []string // extra regex strings for the oracle table
+	maxRe int      // configured regex length limit in bytes (0 = the default 1024)
 }
 
 func defectsFor(r *vlib.Rand, p *program, s site, k int) []defect {
@@ -449,13 +454,13 @@ func defectsFor(r *vlib.Rand, p *program, s site, k int) []defect {
 	var out []defect
 	inExpr := func(class int, what, e string) {
 		for _, ec := range exprCtx {
-			out = append(out, defect{class, what, ec.mk(n, e), ec.name, nil})
+			out = append(out, defect{class, what, ec.mk(n, e), ec.name, nil, 0})
 		}
 	}
 	// 1 undeclared metric
 	inExpr(1, "use of undeclared name", "nosuch"+u)
-	out = append(out, defect{1, "increment of undeclared name", "nosuch" + u + "++", "statement", nil})
-	out = append(out, defect{1, "indexed undeclared name", "nosuch" + u + "[\"k\"]++", "statement", nil})
+	out = append(out, defect{1, "increment of undeclared name", "nosuch" + u + "++", "statement", nil, 0})
+	out = append(out, defect{1, "indexed undeclared name", "nosuch" + u + "[\"k\"]++", "statement", nil, 0})
 	// 2 capture group not defined by a visible pattern
 	inExpr(2, "capture group defined nowhere", "$nogroup"+u)
 	inExpr(2, "numbered capture group beyond the pattern", "$7")
@@ -470,41 +475,45 @@ func defectsFor(r *vlib.Rand, p *program, s site, k int) []defect {
 		}
 	}
 	// 3 undefined decorator
-	out = append(out, defect{3, "undefined decorator", "@nodeco" + u + " {\n  " + n.c + "++\n}", "statement", nil})
+	out = append(out, defect{3, "undefined decorator", "@nodeco" + u + " {\n  " + n.c + "++\n}", "statement", nil, 0})
 	// 4 next outside a decorator
 	if !s.inDef {
-		out = append(out, defect{5, "next outside a decorator", "next", "statement", nil})
-		out = append(out, defect{5, "next in a nested block outside a decorator", "/nx/ {\n  next\n}", "statement", nil})
+		out = append(out, defect{5, "next outside a decorator", "next", "statement", nil, 0})
+		out = append(out, defect{5, "next in a nested block outside a decorator", "/nx/ {\n  next\n}", "statement", nil, 0})
 	}
 	// 5 wrong number of index keys
 	inExpr(8, "too few keys", n.m2+"[\"k\"]")
 	inExpr(8, "too many keys", n.m2+"[\"k\", \"l\", \"m\"]")
 	inExpr(8, "no keys on a dimensioned metric", n.m1)
 	inExpr(9, "key on a scalar metric", n.c+"[\"k\"]")
-	out = append(out, defect{8, "too many keys in an increment", n.m1 + "[\"k\", \"l\"]++", "statement", nil})
+	out = append(out, defect{8, "too many keys in an increment", n.m1 + "[\"k\", \"l\"]++", "statement", nil, 0})
 	// 6 redeclaration in one scope
-	out = append(out, defect{10, "metric declared twice", "counter dup" + u + "\ngauge dup" + u + "\ndup" + u + "++", "statement", nil})
-	out = append(out, defect{10, "dimensioned metric declared twice", "counter dup" + u + " by a\ncounter dup" + u + " by a\ndup" + u + "[\"k\"]++", "statement", nil})
-	out = append(out, defect{11, "pattern constant defined twice", "const DUP" + u + " /dq/\nconst DUP" + u + " /dr/\n/ds/ + DUP" + u + " {\n  " + n.c + "++\n}", "statement", nil})
-	out = append(out, defect{12, "decorator declared twice", "def dupd" + u + " {\n  next\n}\ndef dupd" + u + " {\n  next\n}\n@dupd" + u + " {\n  " + n.c + "++\n}", "statement", nil})
-	out = append(out, defect{10, "metric named like a pattern constant of the same scope", "const DUPK" + u + " /dq/\ncounter DUPK" + u + "\n/ds/ + DUPK" + u + " {\n  " + n.c + "++\n}", "statement", nil})
+	out = append(out, defect{10, "metric declared twice", "counter dup" + u + "\ngauge dup" + u + "\ndup" + u + "++", "statement", nil, 0})
+	out = append(out, defect{10, "dimensioned metric declared twice", "counter dup" + u + " by a\ncounter dup" + u + " by a\ndup" + u + "[\"k\"]++", "statement", nil, 0})
+	out = append(out, defect{11, "pattern constant defined twice", "const DUP" + u + " /dq/\nconst DUP" + u + " /dr/\n/ds/ + DUP" + u + " {\n  " + n.c + "++\n}", "statement", nil, 0})
+	out = append(out, defect{12, "decorator declared twice", "def dupd" + u + " {\n  next\n}\ndef dupd" + u + " {\n  next\n}\n@dupd" + u + " {\n  " + n.c + "++\n}", "statement", nil, 0})
+	out = append(out, defect{10, "metric named like a pattern constant of the same scope", "const DUPK" + u + " /dq/\ncounter DUPK" + u + "\n/ds/ + DUPK" + u + " {\n  " + n.c + "++\n}", "statement", nil, 0})
 	if s.name == "top-level-early" || s.name == "top-level-late" {
-		out = append(out, defect{10, "top-level metric declared again", "gauge " + n.c, "statement", nil})
+		out = append(out, defect{10, "top-level metric declared again", "gauge " + n.c, "statement", nil, 0})
 	}
 	// 7 unused declaration
-	out = append(out, defect{14, "unused counter", "counter unused" + u, "statement", nil})
-	out = append(out, defect{14, "unused hidden dimensioned gauge", "hidden gauge unused" + u + " by k", "statement", nil})
-	out = append(out, defect{14, "unused pattern constant", "const UNUSED" + u + " /uu/", "statement", nil})
-	out = append(out, defect{14, "unused decorator", "def unusedd" + u + " {\n  next\n}", "statement", nil})
+	out = append(out, defect{14, "unused counter", "counter unused" + u, "statement", nil, 0})
+	out = append(out, defect{14, "unused hidden dimensioned gauge", "hidden gauge unused" + u + " by k", "statement", nil, 0})
+	out = append(out, defect{14, "unused pattern constant", "const UNUSED" + u + " /uu/", "statement", nil, 0})
+	out = append(out, defect{14, "unused decorator", "def unusedd" + u + " {\n  next\n}", "statement", nil, 0})
 	// 8 invalid regular expression
-	out = append(out, defect{15, "invalid regex as a condition", "/a(b/ {\n  " + n.c + "++\n}", "statement", nil})
-	out = append(out, defect{15, "invalid regex in a match expression", "\"abc\" =~ /x[/ {\n  " + n.c + "++\n}", "statement", nil})
-	out = append(out, defect{15, "invalid regex built by concatenation", "const HALF" + u + " /(ab/\n/cd/ + HALF" + u + " {\n  " + n.c + "++\n}", "statement", []string{"cd(ab"}})
+	out = append(out, defect{15, "invalid regex as a condition", "/a(b/ {\n  " + n.c + "++\n}", "statement", nil, 0})
+	out = append(out, defect{15, "invalid regex in a match expression", "\"abc\" =~ /x[/ {\n  " + n.c + "++\n}", "statement", nil, 0})
+	out = append(out, defect{15, "invalid regex built by concatenation", "const HALF" + u + " /(ab/\n/cd/ + HALF" + u + " {\n  " + n.c + "++\n}", "statement", []string{"cd(ab"}, 0})
 	// 9 regex over the length limit
 	long := strings.Repeat("a", maxRe+1+r.Intn(50))
-	out = append(out, defect{16, "over-long regex as a condition", "/" + long + "/ {\n  " + n.c + "++\n}", "statement", nil})
+	out = append(out, defect{16, "over-long regex as a condition", "/" + long + "/ {\n  " + n.c + "++\n}", "statement", nil, 0})
 	half := strings.Repeat("b", maxRe/2+1)
-	out = append(out, defect{16, "over-long regex built by concatenation", "const HALFL" + u + " /" + half + "/\n/" + half + "/ + HALFL" + u + " {\n  " + n.c + "++\n}", "statement", []string{half + half}})
+	out = append(out, defect{16, "over-long regex built by concatenation", "const HALFL" + u + " /" + half + "/\n/" + half + "/ + HALFL" + u + " {\n  " + n.c + "++\n}", "statement", []string{half + half}, 0})
+	// the limit is in BYTES: multi-byte patterns, and a configured small limit
+	out = append(out, defect{16, "over-long regex of two-byte characters (1200 bytes, 600 characters)", "/" + strings.Repeat("\u00e9", 600) + "/ {\n  " + n.c + "++\n}", "statement-multibyte", nil, 0})
+	out = append(out, defect{16, "30-byte, 10-character regex over a configured limit of 24 bytes", "/\u65e5\u672c\u8a9e\u306e\u30ed\u30b0\u884c\u3067\u3059\u3002/ {\n  " + n.c + "++\n}", "statement-multibyte", nil, 24})
+	out = append(out, defect{16, "25-byte ASCII regex over a configured limit of 24 bytes", "/" + strings.Repeat("z", 25) + "/ {\n  " + n.c + "++\n}", "statement-small-limit", nil, 24})
 	// 10 integer division or modulus by the literal 0
 	inExpr(17, "int-valued builtin divided by literal 0", "len(\"abc\") / 0")
 	inExpr(17, "int-valued builtin modulo literal 0", "strtol(\"12\", 10) % 0")
@@ -523,6 +532,8 @@ type verdict struct {
 	Loaded  bool     `json:"loaded"`
 	LoadErr bool     `json:"load_err_counted"`
 	InStore int      `json:"metrics_in_store"`
+	// reload sequence: valid version loaded, then the defective one twice
+	Reload []string `json:"reload_problems,omitempty"`
 }
 
 func counter(name string, which int) int64 {
@@ -538,10 +549,87 @@ func counter(name string, which int) int64 {
 	return n
 }
 
-func compileAndLoad(name, src string) verdict {
+var posRe = regexp.MustCompile(`\.mtail:\d+:\d+`)
+
+// reloadSequence loads the valid version, then the defective source twice,
+// into one real Runtime.  Each defective load must fail with a positioned
+// error and move the load-error counter; the valid version must stay
+// installed and keep processing lines.
+func reloadSequence(name, valid, src, cname string, maxRe int) (problems []string) {
+	store := metrics.NewStore()
+	lc := make(chan *logline.LogLine)
+	var wg sync.WaitGroup
+	var ropts []runtime.Option
+	if maxRe > 0 {
+		ropts = append(ropts, runtime.MaxRegexpLength(maxRe))
+	}
+	rt, rerr := runtime.New(lc, &wg, "", store, ropts...)
+	if rerr != nil {
+		return []string{"runtime.New: " + rerr.Error()}
+	}
+	defer func() {
+		close(lc)
+		wg.Wait()
+	}()
+	if err := rt.CompileAndRun(name, strings.NewReader(valid)); err != nil || !rt.VerifLoaded(name) {
+		return []string{fmt.Sprintf("valid version not loaded: %v", err)}
+	}
+	old := rt.VerifVM(name)
+	nm := 0
+	_ = store.Range(func(*metrics.Metric) error { nm++; return nil })
+	for attempt := 1; attempt <= 2; attempt++ {
+		le0, l0 := counter(name, 0), counter(name, 1)
+		err := rt.CompileAndRun(name, strings.NewReader(src))
+		switch {
+		case err == nil:
+			problems = append(problems, fmt.Sprintf("load %d of the defective source over a running valid version returned no error", attempt))
+		case !posRe.MatchString(err.Error()):
+			problems = append(problems, fmt.Sprintf("load %d: error carries no position: %s", attempt, firstLine(err.Error())))
+		}
+		if counter(name, 0) != le0+1 {
+			problems = append(problems, fmt.Sprintf("load %d of the defective source did not move prog_load_errors_total (%d -> %d)", attempt, le0, counter(name, 0)))
+		}
+		if counter(name, 1) != l0 {
+			problems = append(problems, fmt.Sprintf("load %d of the defective source counted as a successful load", attempt))
+		}
+		if rt.VerifVM(name) != old {
+			problems = append(problems, fmt.Sprintf("load %d of the defective source replaced the running version", attempt))
+		}
+	}
+	nm2 := 0
+	_ = store.Range(func(*metrics.Metric) error { nm2++; return nil })
+	if nm2 != nm {
+		problems = append(problems, fmt.Sprintf("store went from %d to %d metrics", nm, nm2))
+	}
+	// the old version still processes lines
+	lc <- logline.New(context.Background(), "log", "x 5")
+	lc <- logline.New(context.Background(), "log", "x 5")
+	// the second send returns only after the loader has handed the first line to the VM
+	deadline := 0
+	for ; deadline < 2000; deadline++ {
+		if m := store.FindMetricOrNil(cname, name); m != nil {
+			if d, err := m.GetDatum(); err == nil && datum.GetInt(d) >= 5 {
+				break
+			}
+		}
+		time.Sleep(time.Millisecond)
+	}
+	if deadline == 2000 {
+		problems = append(problems, "the previously loaded valid version no longer processes lines")
+	}
+	return problems
+}
+
+func compileAndLoad(name, src string, maxRe int) verdict {
 	var v verdict
 	v.Stage = 2
-	c, _ := compiler.New()
+	var copts []compiler.Option
+	var ropts []runtime.Option
+	if maxRe > 0 {
+		copts = append(copts, compiler.MaxRegexpLength(maxRe))
+		ropts = append(ropts, runtime.MaxRegexpLength(maxRe))
+	}
+	c, _ := compiler.New(copts...)
 	_, err := c.Compile(name, strings.NewReader(src))
 	lines := strings.Split(src, "\n")
 	if err != nil {
@@ -574,7 +662,7 @@ func compileAndLoad(name, src string) verdict {
 	store := metrics.NewStore()
 	lc := make(chan *logline.LogLine)
 	var wg sync.WaitGroup
-	rt, rerr := runtime.New(lc, &wg, "", store)
+	rt, rerr := runtime.New(lc, &wg, "", store, ropts...)
 	if rerr != nil {
 		v.Errors = append(v.Errors, "runtime.New: "+rerr.Error())
 		return v
@@ -596,12 +684,25 @@ type progCase struct {
 	What    string  `json:"what"`
 	Site    string  `json:"site"`
 	Ectx    string  `json:"ectx"`
+	MaxRe   int     `json:"max_re,omitempty"`
+	Valid   string  `json:"valid,omitempty"` // the unmutated version (reload sequence)
+	Cname   string  `json:"cname,omitempty"`
 	Verdict verdict `json:"verdict"`
 }
 
-func record(out *vlib.Out, name, src string, d *defect, siteName string, extra []string) {
-	v := compileAndLoad(name, src)
-	pc := progCase{Kind: "prog", Src: src, Site: siteName, Verdict: v}
+func record(out *vlib.Out, name, src, valid, cname string, d *defect, siteName string, extra []string) {
+	limit := 0
+	if d != nil {
+		limit = d.maxRe
+	}
+	v := compileAndLoad(name, src, limit)
+	if d != nil {
+		v.Reload = reloadSequence(name, valid, src, cname, limit)
+	}
+	pc := progCase{Kind: "prog", Src: src, Site: siteName, Verdict: v, MaxRe: limit}
+	if d != nil {
+		pc.Valid, pc.Cname = valid, cname
+	}
 	cls := "control"
 	if d != nil {
 		pc.Class, pc.What, pc.Ectx = d.class, d.what, d.ectx
@@ -631,6 +732,9 @@ func record(out *vlib.Out, name, src string, d *defect, siteName string, extra [
 		if v.Stage != 2 && !v.LoadErr {
 			out.Violate("load-error-not-counted/"+cls, d.what, pc)
 		}
+		if len(v.Reload) > 0 {
+			out.Violate("reload-of-defective-program/"+cls, v.Reload[0], pc)
+		}
 	} else {
 		if v.Stage != 2 || !v.Loaded {
 			out.Violate("control-program-rejected", firstLine(strings.Join(v.Errors, " | ")), pc)
@@ -644,7 +748,7 @@ func record(out *vlib.Out, name, src string, d *defect, siteName string, extra [
 	tree := dump(root)
 	// regex table from a separate parse + check (the checker evaluates the patterns)
 	r2, _ := parser.Parse(name, strings.NewReader(src))
-	r3, _ := checker.Check(r2, 0, 0)
+	r3, _ := checker.Check(r2, limit, 0)
 	tab := regexTable(r3, extra)
 	stage := 1
 	if v.Stage == 0 {
@@ -657,7 +761,11 @@ func record(out *vlib.Out, name, src string, d *defect, siteName string, extra [
 		}
 	}
 	id := out.NextID()
-	out.Add(vlib.App("CProg", vlib.N(id), tab, strconv.Itoa(maxRe), tree, strconv.Itoa(stage), vlib.List(obs)), pc, d != nil)
+	eff := maxRe
+	if limit > 0 {
+		eff = limit
+	}
+	out.Add(vlib.App("CProg", vlib.N(id), tab, strconv.Itoa(eff), tree, strconv.Itoa(stage), vlib.List(obs)), pc, d != nil)
 }
 
 func firstLine(s string) string { return strings.SplitN(s, "\n", 2)[0] }
@@ -679,7 +787,9 @@ func main() {
 	for i := 0; i < nprog; i++ {
 		p := genProgram(rng, i)
 		name := fmt.Sprintf("p%d.mtail", i)
-		record(out, name, p.render(-1, ""), nil, "none", nil)
+		valid := p.render(-1, "")
+		cname := progNames[p].c
+		record(out, name, valid, valid, cname, nil, "none", nil)
 		for k, s := range p.sites {
 			ds := defectsFor(rng, p, s, k)
 			// every class at every site; within a class a rotating choice of
@@ -703,9 +813,28 @@ func main() {
 					take = perSite
 				}
 				start := rng.Intn(len(l))
+				picked := map[int]bool{}
 				for j := 0; j < take; j++ {
-					d := l[(start+j*(1+len(l)/take))%len(l)]
-					record(out, name, p.render(k, d.stmt), &d, s.name, d.extra)
+					picked[(start+j*(1+len(l)/take))%len(l)] = true
+				}
+				if cl == 16 {
+					// always one of the byte-length variants (multi-byte pattern,
+					// configured small limit), rotating over the sites
+					var special []int
+					for j, d := range l {
+						if d.ectx != "statement" {
+							special = append(special, j)
+						}
+					}
+					if len(special) > 0 {
+						picked[special[(i+k)%len(special)]] = true
+					}
+				}
+				for j := range l {
+					if picked[j] {
+						d := l[j]
+						record(out, name, p.render(k, d.stmt), valid, cname, &d, s.name, d.extra)
+					}
 				}
 			}
 		}
@@ -719,9 +848,14 @@ func replay(path string) {
 	}
 	vlib.ReadJSON(path, &v)
 	fmt.Printf("replay %s\nclass %d (%s) at %s / %s\nprogram:\n%s\n", path, v.Case.Class, v.Case.What, v.Case.Site, v.Case.Ectx, v.Case.Src)
-	r := compileAndLoad("replay.mtail", v.Case.Src)
+	r := compileAndLoad("replay.mtail", v.Case.Src, v.Case.MaxRe)
 	fmt.Printf("stage=%d errors=%q bad positions=%q loaded=%v metrics in store=%d\n", r.Stage, r.Errors, r.BadPos, r.Loaded, r.InStore)
-	if v.Case.Class != 0 && (r.Stage == 2 || len(r.BadPos) > 0 || r.Loaded) {
+	var rl []string
+	if v.Case.Class != 0 && v.Case.Valid != "" {
+		rl = reloadSequence("replay.mtail", v.Case.Valid, v.Case.Src, v.Case.Cname, v.Case.MaxRe)
+		fmt.Printf("reload sequence (valid, defective, defective again): problems=%q\n", rl)
+	}
+	if v.Case.Class != 0 && (r.Stage == 2 || len(r.BadPos) > 0 || r.Loaded || len(rl) > 0) {
 		fmt.Println("FAILS")
 		os.Exit(1)
 	}
